@@ -672,6 +672,23 @@ def run(ctx):
                 ctx.add(RULE, fn, 'table', 'violation', '%s: %s' % (role, '; '.join(problems[:4])), props, line, det)
             else:
                 ctx.add(RULE, fn, 'table', 'ok', 'result table matches %s in all four cases Ok(0)/Ok(i)/Err(0)/Err(i)' % role, props, line, det)
+    # ---- emptiness of a sorted-vector variant is emptiness of its buffer --------------------------------------------------------
+    for fn in prog.fns.values():
+        if fn.is_closure or fn.self_adt not in prog.list_adts or fn.trait_method() != 'is_empty' or fn.family == 'seg':
+            continue
+        ok = False
+        for rv in fn.body.ret_val.values():
+            rv = strip(rv)
+            if rv.kind == 'call' and rv.callee_name() == 'is_empty' and rv.args and buffer_of(prog, rv.args[0]) == ('buffer',):
+                ok = True
+            if rv.kind == 'bin' and rv.args[0] == 'Eq':
+                x, y = strip(rv.args[1]), strip(rv.args[2])
+                for p_, q_ in ((x, y), (y, x)):
+                    if p_.kind == 'call' and p_.callee_name() == 'len' and p_.args and buffer_of(prog, p_.args[0]) == ('buffer',) and q_.is_const(0):
+                        ok = True
+        ctx.add(RULE, fn, 'emptiness', 'ok' if ok else 'violation',
+                'is_empty is emptiness of the buffer' if ok else 'is_empty of the sorted-vector variant is not `buffer.is_empty()` / `buffer.len() == 0`: a cache (an earliest expiration, a counter) is no substitute unless it is held to count the entries, and nothing here holds it to that',
+                PROPS_BY_FAMILY.get(fn.family, ['C13']), fn.line)
     ctx.stat(RULE, searches=n)
     if n < 15:
         ctx.anchor_missing(RULE, 'binary searches of the three lists', ['C13'], n, 15)
